@@ -29,7 +29,8 @@ AEnter == inside' = inside + 1 /\ UNCHANGED scfg
 ALeave == inside' = inside - 1 /\ UNCHANGED scfg
 EnterOK == inside + 1 <= scfg.cap
 LenViol(len, waiting, final) ==
-    IF len < 0 \/ len > scfg.cap THEN "C17.sem.len"
+    IF len > scfg.cap THEN "C17.sem.len.above"
+    ELSE IF len < 0 THEN "C17.sem.len.negative"
     ELSE IF waiting < 0 THEN "C17.sem.waiting"
     ELSE IF final /\ (len # 0 \/ waiting # 0) THEN "C17.sem.len.final"
     ELSE ""
